@@ -23,10 +23,10 @@ def shrink_ops(d, cm, fm, differs):
     return d2
 
 
-def run_k1(ncases, tag="k1", max_ops=40):
+def run_k1(ncases, tag="k1", max_ops=40, **gen_kw):
     cm, fm = load_internals()
     r = rng(tag)
-    cases = [gen_desc(r, max_ops=max_ops) for _ in range(ncases)]
+    cases = [gen_desc(r, max_ops=max_ops, **gen_kw) for _ in range(ncases)]
     ans = lean_driver([d.line() for d in cases])
     stats = {"cases": ncases, "ops": 0, "op_kinds": {}, "out_kinds": {}, "hist_len": {}, "bodies_executed": 0,
              "classes_with_super": 0, "classes_with_raise": 0, "disagree_out": 0, "disagree_pv": 0, "disagree_trace": 0,
